@@ -214,7 +214,7 @@ def r3_plumbing(chk: Check) -> None:
     ih = P.func("cli/commands/run/executor.py:initialize_handlers")
     cw = [c for c in body_calls(ih) if last_attr(c) == "CassetteWriter"]
     v = kwarg(cw[0], "sanitize_output") if cw else None
-    chk.decide(v is not None and unparse(v) == "config.report.sanitize_output", "C15.R3", ih, "CassetteWriter(sanitize_output=config.report.sanitize_output)", f"writer gets {unparse(v)}", ih.loc())
+    chk.decide(v is not None and ceq(ih, v, 'config.report.sanitize_output'), "C15.R3", ih, "CassetteWriter(sanitize_output=config.report.sanitize_output)", f"writer gets {unparse(v)}", ih.loc())
     post = P.func(f"{CAS}:CassetteWriter.__post_init__")
     d = next((n for n in walk_body(post.node) if isinstance(n, ast.Dict) and any(const_str(k) == "sanitize_output" for k in n.keys if k is not None)), None)
     have = {const_str(k): unparse(val) for k, val in zip(d.keys, d.values)} if d is not None else {}
